@@ -254,6 +254,7 @@ def t1(ctx, it, consts):
     ref = _ref("xterm_keys.json")
     ctx.rule("T1-FUNCTION", "key table of basic_events_nfa: every byte string denotes one key (a duplicate would be shadowed silently by tag order)", floor=367)
     ctx.rule("T1-XTERM", "key table agrees with refs/xterm_keys.json on every shared byte string: key name and modifiers (parameter m -> bits m-1)", floor=367)
+    ctx.rule("T1-COVER", "every (key, modifiers) the table names is decoded from at least one byte string the reference gives for it", floor=299)
     ctx.rule("T1-KEYMOD", "KeyMod constants carry the xterm modifier bit values, from_bits keeps them, (KeyName, KeyMod) -> Key keeps the pair order", floor=13)
     g = grammar.extract(src).get("BasicEventsMatcher")
     if g is None or g.kind != "table" or g.table is None:
@@ -359,6 +360,37 @@ def t1(ctx, it, consts):
                               "`%s` carries modifiers {%s} (bits %d with KeyMod's constants) but the table gives it bits %d [%s]" % (
                                   _bt(bs), ",".join(sorted(r["mods"])), want_bits, bits, tag), sites=site)
     ctx.note("T1: %d byte strings shared with the reference" % shared)
+    # codes of the CSI n ~ numbering that no terminal sends
+    for n in ref["csi_tilde"].get("unassigned", []):
+        for bs in sorted(by_bytes, key=lambda x: (len(x), x)):
+            if re.fullmatch(rb"\x1b\[%d(;\d+)?~" % n, bs):
+                ctx.violation("T1-XTERM", TABLE_FN, "name:CSI%d~" % n,
+                              "`%s` decodes to %s but %d is an unassigned number of the VT220/xterm function-key numbering: no terminal sends it" % (
+                                  _bt(bs), _key_text(by_bytes[bs][0][0]), n), sites=site)
+                break
+    # every key the table names must be reachable through (one of) the byte strings the reference gives for it
+    ref_by_val = {}
+    for bs, r in refrows.items():
+        if r["mods"] is None:
+            continue
+        wb = 0
+        for n in r["mods"]:
+            wb |= consts.get(MOD_CONST[n], 0)
+        ref_by_val.setdefault((r["key"], wb), []).append(bs)
+    have_vals = {}
+    for bs, rows in by_bytes.items():
+        for key, bits, tag in rows:
+            have_vals.setdefault((key, bits), set()).add(bs)
+    for val in sorted(have_vals, key=repr):
+        cands = ref_by_val.get(val)
+        if not cands:
+            continue
+        hit = [bs for bs in cands if bs in have_vals[val]]
+        ctx.instance("T1-COVER", {"key": _key_text(val[0]), "mods": val[1], "reference_sequences": len(cands), "present": len(hit), "ok": bool(hit)})
+        if not hit:
+            ctx.violation("T1-COVER", TABLE_FN, "unreachable:%s+%d" % (_key_text(val[0]), val[1]),
+                          "%s (mods %d) is decoded only from %s; the sequence(s) terminals send for it (%s) are not in the table" % (
+                              _key_text(val[0]), val[1], ", ".join("`%s`" % _bt(b) for b in sorted(have_vals[val])), ", ".join("`%s`" % _bt(b) for b in sorted(cands)[:4])), sites=site)
 
 
 # =====================================================================================================================
